@@ -55,6 +55,11 @@ type Link struct {
 
 	// SendGate, if set, is called (without the lock) before every Send of the gomqtt side.
 	SendGate func(pkt packet.Generic)
+
+	// AsyncBuffer mimics BaseConn's buffered writer: the first asynchronous Send after the connection
+	// ended is accepted into the buffer (and lost); the failed flush makes every later Send fail.
+	AsyncBuffer bool
+	buffered    bool
 }
 
 // New creates a link in state up and logs popen.
@@ -125,6 +130,11 @@ func (c Conn) Send(pkt packet.Generic, async bool) error {
 		l.Log.AddLocked(l.G+"send_err", "c", l.Name, "pkt", PktRec(pkt), "err", "encode: "+encErr.Error())
 		l.gcloseLocked()
 		return encErr
+	}
+	if l.state != "up" && l.AsyncBuffer && async && !l.buffered {
+		l.buffered = true
+		l.Log.AddLocked(l.G+"send_buf", "c", l.Name, "pkt", PktRec(pkt))
+		return nil
 	}
 	if l.state != "up" {
 		l.Log.AddLocked(l.G+"send_err", "c", l.Name, "pkt", PktRec(pkt), "err", l.state)
